@@ -130,6 +130,31 @@ func allConfigs(wiring string, allOrders bool) []demuxCfg {
 	return out
 }
 
+// keepTwoOrders keeps, of all registration orders of a prefix set, the one in
+// universe order and its reverse (so every prefix is index 0 at least once for
+// sets of size <= 2, and first and last are swapped for size 3).
+func keepTwoOrders(in []demuxCfg) []demuxCfg {
+	pos := map[string]int{}
+	for i, u := range universe {
+		pos[u] = i
+	}
+	var out []demuxCfg
+	for _, c := range in {
+		asc, desc := true, true
+		for i := 1; i < len(c.Entries); i++ {
+			if pos[c.Entries[i-1].Prefix] > pos[c.Entries[i].Prefix] {
+				asc = false
+			} else {
+				desc = false
+			}
+		}
+		if asc || desc {
+			out = append(out, c)
+		}
+	}
+	return out
+}
+
 // ---- backends ---------------------------------------------------------------
 
 // recBackend is sim.ModelBlobAccess plus recording of GetCapabilities.
@@ -451,7 +476,10 @@ func singleScenarios(op string) []string {
 func demuxSingleSub(r *ev.Run, wiring string) {
 	name := "demux-single-" + wiring
 	cfgs := allConfigs(wiring, wiring == "copy")
-	sub := r.NewSub(name, "venum", fmt.Sprintf("%d configurations (prefix sets of size<=3 over %v x rewrites %v; every registration order if wiring=copy; wiring=%s) x {Get,GetFromComposite: present/absent/fault; Put,GetCapabilities: ok/fault} x 2 hashes x %d instance names", len(cfgs), universe, rewrites, wiring, len(singleNames)))
+	if wiring == "copy" && !r.Thorough() {
+		cfgs = keepTwoOrders(cfgs)
+	}
+	sub := r.NewSub(name, "venum", fmt.Sprintf("%d configurations (prefix sets of size<=3 over %v x rewrites %v; wiring=%s; registration orders for wiring=copy: universe order and its reverse (quick) / all (thorough)) x {Get,GetFromComposite: present/absent/fault; Put,GetCapabilities: ok/fault} x 2 hashes x %d instance names", len(cfgs), universe, rewrites, wiring, len(singleNames)))
 	done := sub.Timer()
 	defer done()
 	var outcomes ev.Set
@@ -715,45 +743,118 @@ func (p *fmPlan) run(code, failMask int) (msg, sig, outcome string) {
 	return "", "", outcome
 }
 
+// fmWork lists the (assignment code, fault?) pairs of one (configuration,
+// quadruple). nd = number of digests (8). Codes are base-3 numbers, digit i =
+// state of digest i (0 not asked, 1 asked+stored, 2 asked+missing).
+//
+// thorough: all 3^nd assignments; faults for every assignment without a
+// missing digest.
+// quick: every asked subset S (2^nd) with the answer patterns {nothing
+// missing, everything missing, exactly one digest of S missing}; faults for
+// the subsets {hash 0 x every non-empty name subset} and {all digests}, all
+// stored.
+func fmWork(nd int, thorough bool) (codes []int, faultCodes map[int]bool) {
+	pow := make([]int, nd+1)
+	pow[0] = 1
+	for i := 1; i <= nd; i++ {
+		pow[i] = pow[i-1] * 3
+	}
+	faultCodes = map[int]bool{}
+	if thorough {
+		for code := 0; code < pow[nd]; code++ {
+			codes = append(codes, code)
+			only1 := code != 0
+			for i := 0; i < nd; i++ {
+				if code/pow[i]%3 == 2 {
+					only1 = false
+				}
+			}
+			if only1 {
+				faultCodes[code] = true
+			}
+		}
+		return
+	}
+	seen := map[int]bool{}
+	add := func(c int) {
+		if !seen[c] {
+			seen[c] = true
+			codes = append(codes, c)
+		}
+	}
+	for mask := 0; mask < 1<<nd; mask++ {
+		stored, missing := 0, 0
+		for i := 0; i < nd; i++ {
+			if mask&(1<<i) != 0 {
+				stored += pow[i]
+				missing += 2 * pow[i]
+			}
+		}
+		add(stored)
+		add(missing)
+		for i := 0; i < nd; i++ {
+			if mask&(1<<i) != 0 {
+				add(stored + pow[i])
+			}
+		}
+		if mask != 0 && (mask < 1<<(nd/2) || mask == 1<<nd-1) {
+			faultCodes[stored] = true
+		}
+	}
+	return
+}
+
 func demuxFMSub(r *ev.Run, wiring string) {
 	name := "demux-findmissing-" + wiring
-	cfgs := allConfigs(wiring, ev.Pick(r, false, true) && wiring == "copy")
+	thorough := r.Thorough()
+	cfgs := allConfigs(wiring, thorough && wiring == "copy")
 	quads := fmQuads[:ev.Pick(r, 2, 3)]
-	sub := r.NewSub(name, "venum", fmt.Sprintf("%d configurations (wiring=%s) x %d name quadruples x all 3^8 (not asked | asked+stored | asked+missing) assignments over 2 hashes x 4 names, plus every asked subset x every non-empty set of failing backends", len(cfgs), wiring, len(quads)))
+	// quick + config wiring (about 3x dearer per case because of the metrics
+	// decorators): one quadruple per configuration, alternating.
+	alternate := !thorough && wiring == "config"
+	codes, faultCodes := fmWork(8, thorough)
+	space := "every asked subset S of the 8 digests x answers {nothing missing, all of S missing, exactly one digest of S missing}; faults: S in {hash 0 x non-empty name subsets, all 8}, all stored, x every non-empty set of failing backends"
+	if thorough {
+		space = "all 3^8 (not asked | asked+stored | asked+missing) assignments; faults: every assignment without a missing digest x every non-empty set of failing backends"
+	}
+	per := fmt.Sprintf("%d name quadruples", len(quads))
+	if alternate {
+		per = "1 of 2 name quadruples (alternating by configuration index)"
+	}
+	sub := r.NewSub(name, "venum", fmt.Sprintf("%d configurations (wiring=%s) x %s of 4 instance names x 2 hashes: %s", len(cfgs), wiring, per, space))
 	done := sub.Timer()
 	defer done()
 	var outcomes ev.Set
 	type res struct{ evals, nontriv int64 }
-	n := len(cfgs) * len(quads)
+	nq := len(quads)
+	if alternate {
+		nq = 1
+	}
+	n := len(cfgs) * nq
 	results := make([]res, n)
 	var smu sync.Mutex
 	sampled := 0
 	par.For(n, func(k int) {
-		cfg, quad := cfgs[k/len(quads)], quads[k%len(quads)]
+		cfg, quad := cfgs[k/nq], quads[k%nq]
+		if alternate {
+			quad = quads[k%len(quads)]
+		}
 		p := newFMPlan(cfg, quad)
-		total := p.pow[len(p.ds)]
 		local := map[string]bool{}
-		for code := 0; code < total; code++ {
+		for ci, code := range codes {
 			// non-trivial: the asked digests span >= 2 backends, or known and unknown names are mixed.
 			span, spanN := 0, 0 // bit idx+1
-			onlyStored := true
 			for i := range p.ds {
-				st := code / p.pow[i] % 3
-				if st != 0 && span&(1<<(p.ds[i].idx+1)) == 0 {
+				if code/p.pow[i]%3 != 0 && span&(1<<(p.ds[i].idx+1)) == 0 {
 					span |= 1 << (p.ds[i].idx + 1)
 					spanN++
 				}
-				if st == 2 {
-					onlyStored = false
-				}
 			}
-			masks := []int{0}
-			if onlyStored && len(cfg.Entries) > 0 && span&1 == 0 && spanN > 0 {
-				for m := 1; m < 1<<len(cfg.Entries); m++ {
-					masks = append(masks, m)
-				}
+			nmasks := 1
+			if faultCodes[code] && span&1 == 0 {
+				nmasks = 1 << len(cfg.Entries)
 			}
-			for _, fm := range masks {
+			for fm := 0; fm < nmasks; fm++ {
 				msg, sig, oc := p.run(code, fm)
 				results[k].evals++
 				if spanN >= 2 {
@@ -763,9 +864,9 @@ func demuxFMSub(r *ev.Run, wiring string) {
 				if msg != "" {
 					r.Violate(ev.Violation{Signature: sig, Sub: name, Message: msg, Case: fmCase{cfg, quad, code, fm}})
 				}
-				if k%811 == 300 && code == 4373 && fm == 0 {
+				if k%811 == 300 && ci == len(codes)*2/3 && fm == 0 {
 					smu.Lock()
-					if sampled < 3 {
+					if sampled < 2 {
 						sampled++
 						r.Sample(map[string]any{"sub": name, "case": fmCase{cfg, quad, code, fm}, "outcome": oc})
 					}
@@ -784,7 +885,7 @@ func demuxFMSub(r *ev.Run, wiring string) {
 	sub.States, sub.Transitions = sub.Evaluations, sub.Evaluations
 	sub.Outcomes = outcomes.Len()
 	sub.Exhaustive = true
-	sub.Extra = map[string]any{"configurations": len(cfgs), "quadruples": quads}
+	sub.Extra = map[string]any{"configurations": len(cfgs), "quadruples": quads, "assignments_per_configuration_and_quadruple": len(codes)}
 }
 
 type lazyString func() string
